@@ -223,6 +223,18 @@ impl GroupCtrStore {
     }
 }
 
+#[cfg(all(feature = "verif", feature = "groups"))]
+impl GroupCtrStore {
+    /// `(fabric index, source node id, highest accepted counter, bitmap, LRU stamp)` of every
+    /// tracked group sender, for the verification harness. Read-only.
+    pub fn verif_entries(&self) -> impl Iterator<Item = (u8, u64, u32, u16, u32)> + '_ {
+        self.entries.iter().map(|e| {
+            let (max_ctr, bitmap) = e.rx_ctr.verif_state();
+            (e.fab_idx, e.src_nodeid, max_ctr, bitmap, e.last_used)
+        })
+    }
+}
+
 #[cfg(test)]
 mod tests {
     use super::RxCtrState;
